@@ -101,8 +101,38 @@ def handler_bursts(tier):
     return out
 
 
+def sync_composition_b3(tier, out, wd):
+    """B3 on specs/SyncComposition.tla: the composition lane queues -> lane output channel -> write task -> replica.
+    With the excuses of the open known findings (F5, F12) the invariants hold for every interleaving at small scope;
+    without them TLC must still produce the counterexamples (the findings are properties of the design)."""
+    q = tier == "quick"
+    excused = [dict(Keys={1, 2}, Remotes={1, 2}, MaxOps=3, Cap=1, LinkFirst=False, Excuse=True),
+               dict(Keys={1, 2}, Remotes={1}, MaxOps=4, Cap=2, LinkFirst=False, Excuse=True)]
+    if not q:
+        excused += [dict(Keys={1, 2}, Remotes={1, 2}, MaxOps=3, Cap=3, LinkFirst=True, Excuse=True),
+                    dict(Keys={1, 2, 3}, Remotes={1}, MaxOps=4, Cap=2, LinkFirst=False, Excuse=True)]
+    raw = [("F5", dict(Keys={1, 2}, Remotes={1}, MaxOps=3, Cap=3, LinkFirst=False, Excuse=False)),
+           ("F12", dict(Keys={1, 2}, Remotes={1}, MaxOps=3, Cap=1, LinkFirst=True, Excuse=False))]
+    for k in excused:
+        r = core.run_tlc("SyncComposition", core.cfg(constants=k, invariants=["SnapshotAtSynced", "Converged"]),
+                         os.path.join(wd, "synccomp"), workers=4, timeout=1500, coverage=False)
+        if not r.ok:
+            raise core.ToolError("SyncComposition.tla violates %s beyond the excused findings for %s:\n%s" % (r.violated, k, r.counterexample[:1500]))
+        out.add(states=r.distinct, transitions=r.generated)
+        core.log("[C03] SyncComposition.tla %s: %d states, SnapshotAtSynced / Converged hold (modulo F5, F12)" % (
+            {a: (sorted(b) if isinstance(b, set) else b) for a, b in k.items()}, r.distinct))
+    open_ids = {f["id"] for f in core.open_findings("C03")}
+    for fid, k in raw:
+        r = core.run_tlc("SyncComposition", core.cfg(constants=k, invariants=["SnapshotAtSynced", "Converged"]),
+                         os.path.join(wd, "synccomp_raw"), workers=2, timeout=600, coverage=False)
+        if r.ok and fid in open_ids:
+            out.notes.append("SyncComposition.tla no longer exhibits %s without its excuse" % fid)
+        core.log("[C03] SyncComposition.tla without excuses (%s scope): %s" % (fid, "counterexample found (%s)" % r.violated if not r.ok else "holds"))
+
+
 def run(tier, out):
     wd = core.workdir("C03")
+    sync_composition_b3(tier, out, wd)
     core.build_harness("h_runtime", "e2e")
     tot_cases = tot_events = 0
     batches = []
@@ -114,7 +144,7 @@ def run(tier, out):
     # repeated: the lane's HashMap iteration order (hence the sync order) differs from instance to instance
     batches.append(("handler bursts while syncing", handler_bursts(tier) * (4 if tier == "quick" else 12)))
     for bi, (name, scripts) in enumerate(batches):
-        cases, results = e2e.run_scripts(wd, scripts, {"store": False}, tag="run%d" % bi)
+        cases, results = e2e.run_scripts(wd, scripts, {"store": True}, tag="run%d" % bi)
         for mod, proj, consts, tag in (("Trace_ValueView", lambda log: e2e.proj_value(log, VLANES), VC, "v"),
                                        ("Trace_MapReplica", lambda log: e2e.proj_map(log, MLANES), MC, "m"),
                                        ("Trace_LinkProtocol", e2e.proj_link, LC, "l")):
